@@ -108,6 +108,9 @@ class ChainView:
     def vc_iter(self, eng):
         raise Unsupported('iteration over chain(symbolic sequence, ...) needs a loop invariant')
 
+    def vc_getitem(self, eng, idx, node=None):
+        return self.at(eng, zterm(idx, INT))
+
 
 def it_product(eng, args, kwargs, node):
     lists = [eng.iterate_concrete(a) for a in args]
